@@ -119,10 +119,12 @@ class FileEntriesAdapter(Subconstruct):
             if is_table_end(stream):
                 break
             file_entry_container: Union[FileEntryContainer, None] = None
+            entry_address = stream.tell()
             try:
                 file_entry_container = self.subcon.parse_stream(stream, _=context, sat=sat)
             except (ConstructError, RequestedInvalidSector):
-                pass
+                # stay aligned with the table: skip exactly this entry
+                stream.seek(entry_address + table_entry_size, SEEK_SET)
 
             if file_entry_container is not None and file_entry_container.start > 0:
                 name = file_entry_container.name
